@@ -24,6 +24,7 @@ import shutil
 import tempfile
 import zlib
 from concurrent.futures import ThreadPoolExecutor
+from types import SimpleNamespace
 from typing import Any, Dict, List, Optional, Tuple
 
 from .. import tlc as _tlc
@@ -722,6 +723,83 @@ def _sig(clause: str, kind: str) -> dict:
     return {"clause": clause, "kind": kind}
 
 
+def reader_path_case(args) -> Tuple[List[Tuple[str, str, str]], Dict[str, int]]:
+    """the embed-store reader (perf.t2.reader.partitions + a store on disk) is another way to score the rows of the same
+    memory: owner scope, similarity threshold, k and distinctness bind it as they bind the index search"""
+    import collections
+    import tempfile as _tf
+    import shutil as _sh
+    from pathlib import Path
+    import numpy as np
+    from configs.validate import validate_config
+    from clematis.engine.stages.t2.core import t2_semantic
+    from clematis.engine.util.embed_store import write_shard
+    from clematis.memory.index import InMemoryIndex
+    seed, i = args
+    r = rng(seed, "c11reader", i)
+    counts: Dict[str, int] = collections.Counter()
+    fails: List[Tuple[str, str, str]] = []
+    # exact geometry: query e1, rows (c, s, 0, 0) with c on a coarse grid
+    grid = [(1.0, 0.0), (0.96, 0.28), (0.6, 0.8), (0.28, 0.96), (0.0, 1.0), (-0.6, 0.8)]
+    owners = ["A", "B", "world"]
+    rows = {}
+    for j in range(r.randrange(2, 9)):
+        c, s_ = r.choice(grid)
+        rows[f"m{j:02d}"] = (r.choice(owners), [c, s_, 0.0, 0.0], c)
+    scope = r.choice(["agent", "world", "any"])
+    thr = r.choice([-1.0, 0.0, 0.5, 0.9])
+    k = r.choice([1, 2, 3, 64])
+    agent = r.choice(["A", "B"])
+    tmp = _tf.mkdtemp(prefix="c11rd_", dir=_WORK[0] or None)
+    try:
+        root = Path(tmp) / "t2"
+        for ow in owners:
+            ids = [x for x, (o, _, _) in rows.items() if o == ow]
+            if ids:
+                write_shard(root / ow / "2025Q3", ids, np.asarray([rows[x][1] for x in ids], dtype=np.float32), dtype="fp32", precompute_norms=True)
+        raw = {"k_surface": 4, "t2": {"backend": "inmemory", "k_retrieval": k, "sim_threshold": thr, "owner_scope": scope, "embed_root": str(root),
+                                      "cache": {"enabled": False}},
+               "perf": {"enabled": True, "t2": {"reader": {"partitions": {"enabled": True, "layout": "owner_quarter", "path": str(root)}}}}}
+        try:
+            cfg = validate_config(raw)
+        except Exception as e:      # noqa: BLE001 - outside the quantifier
+            return [], counts
+        idx = InMemoryIndex()
+        for x, (o, v, _c) in rows.items():
+            idx.add({"id": x, "owner": o, "text": f"text {x}", "ts": "2025-08-20T00:00:00Z", "vec_full": v, "aux": {}})
+
+        class Enc:
+            def encode(self, texts):
+                return [np.array([1.0, 0.0, 0.0, 0.0], dtype=np.float32) for _ in texts]
+        ctx = SimpleNamespace(cfg=cfg, now=NOW_ISO, enc=Enc(), agent_id=agent)
+        try:
+            res = t2_semantic(ctx, {"mem_index": idx, "mem_backend": "inmemory"}, "q", SimpleNamespace(graph_deltas=[]))
+        except Exception as e:      # noqa: BLE001
+            return [("TierRules", "reader-raised", f"reader path: t2_semantic raised {type(e).__name__}: {e}")], counts
+        if res.metrics.get("tier_sequence") != ["embed_store"]:
+            counts["reader.path_not_taken"] += 1
+            return fails, counts
+        counts["reader.path_taken"] += 1
+        got = [(str(x.id), float(x.score)) for x in res.retrieved]
+        where = f"embed-store reader: scope={scope} agent={agent} thr={thr} k={k} rows={ {x: (o, c) for x, (o, _v, c) in rows.items()} }"
+        want_owner = {"agent": agent, "world": "world", "any": None}[scope]
+        foreign = [x for x, _ in got if want_owner is not None and rows[x][0] != want_owner]
+        if foreign:
+            fails.append(("OwnerScope", "reader-path", f"{where}: returned {foreign} of other owners ({got})"))
+        below = [(x, sc) for x, sc in got if sc < thr - 1e-6]
+        if below:
+            fails.append(("Threshold", "reader-path", f"{where}: returned {below} below the threshold"))
+        if len(got) > k:
+            fails.append(("AtMostK", "reader-path", f"{where}: {len(got)} items"))
+        if len({x for x, _ in got}) != len(got):
+            fails.append(("Distinct", "reader-path", f"{where}: duplicates in {got}"))
+        if not fails:
+            counts["reader.conforms"] += 1
+        return fails, counts
+    finally:
+        _sh.rmtree(tmp, ignore_errors=True)
+
+
 def check(run) -> None:
     q = run.quick
     _selfcheck_geometry()
@@ -798,7 +876,17 @@ def check(run) -> None:
             run.ok(k, v)
         for clause, kind, msg in fails:
             run.fail(clause, _sig(clause, kind), {"t2_k": kk}, msg, replay={"orch_cap": kk})
-    for must in ("hybrid_reordered", "quality_reordered", "RerankIsPermutation", "RankingLaw.identical_input_ties"):
+    _WORK[0] = run.workdir
+    nread = 120 if q else 3000
+    rargs = [(run.seed, i) for i in range(nread)]
+    for a, (fails, counts) in zip(rargs, pmap(reader_path_case, rargs, chunk=8)):
+        run.traces += 1
+        run.case(("reader", a[1]))
+        for k, v in counts.items():
+            run.ok(k, v)
+        for clause, kind, msg in fails:
+            run.fail(clause, _sig(clause, kind), {"seed": a[0], "i": a[1]}, msg, replay={"reader": list(a)})
+    for must in ("hybrid_reordered", "quality_reordered", "RerankIsPermutation", "RankingLaw.identical_input_ties", "reader.path_taken"):
         if run.clauses.get(must, 0) == 0:
             raise _tlc.TLCError(f"C11: vacuous run: counter {must} is 0")
     run.assumptions += [
@@ -819,6 +907,8 @@ def replay(rep) -> int:
         fails = rerank_case(r["rerank"])[0]
     elif "orch_cap" in r:
         fails = orchestrator_cap_case(r["orch_cap"])[0]
+    elif "reader" in r:
+        fails = reader_path_case(tuple(r["reader"]))[0]
     else:
         fails = random_case(tuple(r["random"]))[0]
     for f in fails:
